@@ -26,16 +26,16 @@ type Kid struct {
 }
 
 type Node struct {
-	K      string   `json:"k"`  // prim struct slice ptr custom
-	Ty     string   `json:"ty"` // int str bool float time none
-	Req    bool     `json:"req"`
-	Def    int      `json:"def"`
-	Catch  int      `json:"catch"`
-	Tests  []Test   `json:"tests"`
-	Pts    []string `json:"pts"`
-	Kids   []Kid    `json:"kids"`
-	ReqMsg string   `json:"reqmsg"` // custom message passed to Required(...)
-	ReqPath string  `json:"reqpath"` // IssuePath passed to Required(...) / NotNil(...)
+	K       string   `json:"k"`  // prim struct slice ptr custom
+	Ty      string   `json:"ty"` // int str bool float time none
+	Req     bool     `json:"req"`
+	Def     int      `json:"def"`
+	Catch   int      `json:"catch"`
+	Tests   []Test   `json:"tests"`
+	Pts     []string `json:"pts"`
+	Kids    []Kid    `json:"kids"`
+	ReqMsg  string   `json:"reqmsg"`  // custom message passed to Required(...)
+	ReqPath string   `json:"reqpath"` // IssuePath passed to Required(...) / NotNil(...)
 }
 
 type Ent struct {
